@@ -301,6 +301,44 @@ func tlvHdr(t, l uint64) []byte {
 	return append(put(t), put(l)...)
 }
 
+// unknownTypes: three element types the model does not know at its top level: one <= 31 (critical), one odd > 31
+// (critical), one even > 31 (non-critical). "Known" is established by observation: every type appearing at the top
+// level of any variant's encoding.
+var unkCache = map[string][]uint64{}
+
+func unknownTypes(m regModel, nVar int) []uint64 {
+	if u, ok := unkCache[m.name]; ok {
+		return u
+	}
+	known := map[uint64]bool{}
+	for k := 0; k < nVar+20; k++ {
+		v := m.mk()
+		if !fill(reflect.ValueOf(v).Elem(), nonNil(k), 0) {
+			continue
+		}
+		func() {
+			defer func() { recover() }()
+			if w := m.encode(v); w != nil {
+				sp, _ := tlvSpans(w.Join())
+				for _, s := range sp {
+					known[s.typ] = true
+				}
+			}
+		}()
+	}
+	pick := func(cands []uint64) uint64 {
+		for _, c := range cands {
+			if !known[c] {
+				return c
+			}
+		}
+		return cands[len(cands)-1]
+	}
+	u := []uint64{pick([]uint64{31, 29, 27, 19, 17, 13, 11, 3}), pick([]uint64{65521, 32753, 4093, 1021}), pick([]uint64{65522, 32754, 4094, 1022})}
+	unkCache[m.name] = u
+	return u
+}
+
 // seeds: valid encodings of every model, variants 0..n-1 (those the builder supports and that round-trip)
 type seed struct {
 	model int
@@ -414,10 +452,17 @@ func TestRegRoundTrip(t *testing.T) {
 				positions = append(positions, s.end)
 			}
 			for pi, p := range positions {
-				for _, u := range []uint64{30, 253, 254} {
+				for _, u := range unknownTypes(m, nVar) {
 					for _, ic := range []bool{false, true} {
 						mut := append(append(append([]byte{}, wire[:p]...), append(tlvHdr(u, 2), 0xAA, 0xBB)...), wire[p:]...)
-						r2 := map[string]any{"ev": "ins", "model": m.name, "k": k, "pos": pi, "u": u, "ic": ic}
+						prevT, nextT := -1, -1
+						if pi > 0 {
+							prevT = int(spans[pi-1].typ)
+						}
+						if pi < len(spans) {
+							nextT = int(spans[pi].typ)
+						}
+						r2 := map[string]any{"ev": "ins", "model": m.name, "k": k, "pos": pi, "u": u, "ic": ic, "prevT": prevT, "nextT": nextT}
 						func() {
 							defer func() {
 								if r := recover(); r != nil {
@@ -478,6 +523,11 @@ func TestRegDebug(t *testing.T) {
 						fmt.Printf("%s k=%d ERR %v wire=%x\n  val=%s\n", m.name, k, err, trunc(wire, 48), js(v))
 					}
 					return
+				}
+				for _, cut := range []int{1, len(wire) / 2, len(wire) - 1} {
+					if cut > 0 && cut < len(wire) {
+						m.parse(enc.NewWireReader(enc.Wire{wire[:cut], wire[cut:]}), false)
+					}
 				}
 				if !same(reflect.ValueOf(v), reflect.ValueOf(back)) && !seen["differ"] {
 					seen["differ"] = true
